@@ -310,10 +310,30 @@ func c25Chunk(p *an.Prog, r *an.R) {
 					}
 				}
 			}
+			if !okSet && !g.Reach(g.Entry(), false, &an.Search{ExitIsTarget: true, Cut: setsFlag}) {
+				okSet = true // set unconditionally: no path through the closure leaves the flag unset
+			}
 			r.Check(okSet, "C25.R2", srv+".gRPCChunkSender/sent-flag-set-when-attached", as.Pos(), "the flag is set to true on the path that attaches the stats", "the sent-flag is not set on the path that attaches the statistics: every chunk of the event carries them again")
 			// the flag is declared false inside the per-event closure (not shared across events)
 			declOK, perChunk := false, false
 			ast.Inspect(d.Decl.Body, func(m ast.Node) bool {
+				if vs, isVS := m.(*ast.ValueSpec); isVS {
+					for i, id := range vs.Names {
+						if info.Defs[id] != flag {
+							continue
+						}
+						if len(vs.Values) == 0 {
+							declOK = true // zero value
+						} else if i < len(vs.Values) {
+							if tv := info.Types[vs.Values[i]]; tv.Value != nil && tv.Value.String() == "false" {
+								declOK = true
+							}
+						}
+						if vs.Pos() >= lit.Pos() && vs.End() <= lit.End() && !c25TakesEvent(info, lit) {
+							perChunk = true
+						}
+					}
+				}
 				a2, ok := m.(*ast.AssignStmt)
 				if ok && a2.Tok == token.DEFINE && len(a2.Lhs) == 1 {
 					if id, ok := a2.Lhs[0].(*ast.Ident); ok && info.Defs[id] == flag {
